@@ -1,4 +1,37 @@
+import os, hashlib
+
+def _race_stage(c):
+    """build harness/c17 with -race and run the free-running shapes (no step discipline) through
+    pkg/group: a data race with a frame in pkg/group is a violation (Direct class "race").  The Go race
+    detector treats close(ch) as a write and a send as a read of the channel, so a member goroutine whose
+    WaitGroup.Done precedes its send races with the closer on EVERY schedule (Done -> Wait is the only
+    happens-before edge between them)."""
+    h = os.path.join(c["root"], "harness")
+    out = os.path.join(c["build"], "c17-racebin")
+    modflag = []
+    if c["repo"] != "/repo":
+        alt = os.path.join(c["build"], "alt-%s.mod" % hashlib.sha1(c["repo"].encode()).hexdigest()[:8])
+        if os.path.exists(alt):
+            modflag = ["-modfile=" + alt]
+            out += "-alt"
+    env = dict(c["env"], CGO_ENABLED="1")
+    rc, log = c["sh"](["go", "build", "-race", "-tags", "verif", "-o", out] + modflag + ["./c17"], cwd=h, timeout=600, env=env)
+    if rc != 0:
+        c["meta"].setdefault("coverage_extra", {})["race_stage"] = "not run: -race build failed or timed out"
+        return []
+    env = dict(env, GORACE="halt_on_error=0 exitcode=0")
+    rc, log = c["sh"]([out, "c17-freerun", "40"], timeout=300, env=env)
+    reports = [r for r in log.split("==================") if "WARNING: DATA RACE" in r]
+    ingroup = [r for r in reports if "sc-golang/pkg/group." in r]
+    c["meta"].setdefault("coverage_extra", {})["race_stage"] = "ran (harness built with -race, 50 free-running shapes x 40 calls per caller through pkg/group): %d race report(s), %d with a pkg/group frame; exit %d" % (len(reports), len(ingroup), rc)
+    if ingroup:
+        lines = [l for l in ingroup[0].splitlines() if l.strip()][:24]
+        return [{"what": "data race involving pkg/group while running free-running group calls (go build -race): " + " | ".join(l.strip() for l in lines)[:1500],
+                 "class": "race", "replay": {"cmd": "c17 (built with -race) c17-freerun 40", "reports": len(ingroup)}}]
+    return []
+
 CFG = {
+        "extra": _race_stage,
         "harness_pkg": "c17",
         "coq_modules": ["Group.C17Judge", "Group.ExecAwareProofs", "Group.ContractProofs", "Group.ExecProcProofs",
                         "Group.C17PJudge", "Group.ExecPcProofs", "Group.ExecPcClosed", "Group.ExecPcOneProofs", "Group.ExecShape",
@@ -28,8 +61,8 @@ CFG = {
                      "C17_pull_stream_up_to_date", "C17_pull_onoff_reduce_closed_form", "C17_pull_light_reduce_closed_form",
                      "C17_pull_returns_with_execute", "C17_pull_returns_once_members_returned", "C17_pull_failed_send_waits",
                      "C17_pull_all_first_error_cancels_everyone"],
-        "level_text": "Theorems (Props/C17.v, closed under the global context) about a step-by-step Gallina model of pkg/group/exec.go (the loop bodies of ExecuteUpTo/Fast/Race, ExecuteOne, Execute's dispatch and result placement, members released in a completion order, context cancellation reaching cancellation-aware members) state, for EVERY member count, outcome vector, mix of context-ignoring and cancellation-aware members, and completion order (permutation), that the model equals a closed-form contract (C17_model_meets_contract), from which: All/Most/Any fail exactly when some / more than half / all members fail by themselves, the error is the first failing member's in completion order (never a context error), results sit at the member's own index (nil for aware members cancelled before they finished), the call waits for all members, the context is cancelled at the first step at which the outcome is decided and every aware member still running sees it at that step; One tries members in index order; Fast returns the first success (errs iff all fail), Race the first response, both cancel the rest at that step; Execute never panics (any input whatever). In a process model of executeEach (member goroutines, channel of capacity cap, closer, caller with an early-return rule, arbitrary scheduler) every goroutine inevitably ends once the members have returned when cap >= n or the caller never leaves early, each response is received at most once, and under the harness's step discipline (one member returns at a time, only when quiescent) the order of receipt equals the order of release. The model is tied to the code on every run by executing the real functions with channel-gated members for all member counts 0-4 x all outcome assignments x all orders x strategies 0-7 (plus cancellation-aware members, direct entry points, n=5 with all orders, random groups up to 8) and comparing each observation (result, invoked members, cancel step, return step, per-member ctx.Done step, goroutine dump) in Coq with the model and with the closed-form contract, which does not use the model. Second wave: (1) the PARENT context cancelled from outside (before the call or at any step) is an event of the model Group/ExecPc.v, which carries along the sequence of responses that reached the receiving loop; for ANY members and ANY event list the call, once returned, returned its loop's law on a well-formed received sequence (C17_first_error_observed: ExecuteUpTo fails iff more than the budget received responses carry an error and returns the FIRST error of that sequence - a member's own or, after a parent cancellation, an aware member's context error; Fast the first success else the first error response; Race the first response), returns once every member was released (C17_call_returns_under_events), never panics (C17_never_panics_under_events), and without a parent cancellation is the old model (C17_event_model_extends_model); generator C17P drives the real functions through all cancellation points for n <= 4 (sub-gated so that simultaneously cancelled members return in index order) and compares with the event model and with a closed-form contract (received sequence = released up to q ++ flushed in index order ++ context-ignoring later ones), plus scripted response sequences with arbitrary messages/errors (same error value from several members, errors.Is-equal distinct errors, nil-message successes) compared with the fold of recv and the closed-form law (proved equal, C17_scripted_sequence_law). (2) In the process model the caller's loop ends too on every schedule for every member count (C17_call_returns), the empty group returns and only the closer can move (C17_empty_group_returns), and a caller that never leaves early has received every member exactly once when its loop ends (C17_never_stopping_caller_receives_all). (3) Gen/GroupExec.v is regenerated from pkg/group/exec.go on every run (go/ast): Execute's switch as a table is proved to be the model's dispatch for every integer and executeEach's shape (channel capacity len(members), all.Add(len(members)), member goroutines that send before Done, one closer) is the one the process model was written from (C17_execute_dispatch_from_source, C17_execute_each_shape_from_source). (4) Trait groups: The two callers of group.Execute (pkg/trait/onoffpb/group.go, pkg/trait/lightpb/group.go) are covered by a second generator (C17T) and Group/TraitGroup*.v: for unary calls the error mapping, the reducers in closed form (onoff: ON if any populated slot is ON, else the first value that is not UNSPECIFIED; light: arithmetic mean over Q when every slot is populated, explicit index-weighted sum otherwise) and, through the contract, which members' values are reduced at which index; for Pull, over every event list: each message sent is the reduction of each member's latest change at its own index and differs from the previous one, the stream is up to date after every processed message, Pull returns exactly when and at the step Execute returns (with Execute's error, or the failed Send's), and with strategy All the first stream end cancels every aware member at that step.",
-        "level_note": "Goroutine termination and the release-order/receive-order link are proved for the process model (textbook channel semantics, arbitrary scheduler) and observed through goroutine dumps; the Go scheduler/runtime is not modelled, and the process model and the decision model are two models (related by C17_received_once and C17_release_order_is_receive_order, not by a full refinement proof). Trusted: Coq kernel + vm_compute, the hand model (tied to the code by the correspondence), the harness (quiescence detection from runtime.Stack states, canonicalisation of messages/errors to integers). Members that never return are outside the property. NOT proved, only evaluated on every generated case (and by vm_compute over all inputs with n <= 3 during development): that the closed-form contract for parent cancellation (contract_ev, incl. ExecuteOne's one_spec) equals the event model; the received sequence in C17_first_error_observed is existential, its closed form is part of contract_ev. The order in which simultaneously cancelled members return is fixed to index order in both model and harness (other orders are schedules the check does not drive; the trace theorems hold for whatever sequence is received). Trait groups: levels are exact rationals in the model; observations of levels are only compared when every float32 intermediate of the reducer is exactly representable (conservative test in the guard), so rounding is not modelled; the lightpb reducer weights by member index, so with an unpopulated slot the result is not the mean of the values present (C17_light_reduce_with_holes_is_not_mean_witness: an observation, not a finding); that the goroutine running Execute inside Pull ends is modelled and observed (goroutine dump), not proved; the Pull judge's closed-form predicate is not proved equivalent to the model (only the unary judge is: C17_trait_unary_judge_sound); Pull with strategy One is not modelled.",
+        "level_text": "Theorems (Props/C17.v, closed under the global context) about a step-by-step Gallina model of pkg/group/exec.go (the loop bodies of ExecuteUpTo/Fast/Race, ExecuteOne, Execute's dispatch and result placement, members released in a completion order, context cancellation reaching cancellation-aware members) state, for EVERY member count, outcome vector, mix of context-ignoring and cancellation-aware members, and completion order (permutation), that the model equals a closed-form contract (C17_model_meets_contract), from which: All/Most/Any fail exactly when some / more than half / all members fail by themselves, the error is the first failing member's in completion order (never a context error), results sit at the member's own index (nil for aware members cancelled before they finished), the call waits for all members, the context is cancelled at the first step at which the outcome is decided and every aware member still running sees it at that step; One tries members in index order; Fast returns the first success (errs iff all fail), Race the first response, both cancel the rest at that step; Execute never panics (any input whatever). In a process model of executeEach (member goroutines, channel of capacity cap, closer, caller with an early-return rule, arbitrary scheduler) every goroutine inevitably ends once the members have returned when cap >= n or the caller never leaves early, each response is received at most once, and under the harness's step discipline (one member returns at a time, only when quiescent) the order of receipt equals the order of release. The model is tied to the code on every run by executing the real functions with channel-gated members for all member counts 0-4 x all outcome assignments x all orders x strategies 0-7 (plus cancellation-aware members, direct entry points, n=5 with all orders, random groups up to 8) and comparing each observation (result, invoked members, cancel step, return step, per-member ctx.Done step, goroutine dump) in Coq with the model and with the closed-form contract, which does not use the model. Second wave: (1) the PARENT context cancelled from outside (before the call or at any step) is an event of the model Group/ExecPc.v, which carries along the sequence of responses that reached the receiving loop; for ANY members and ANY event list the call, once returned, returned its loop's law on a well-formed received sequence (C17_first_error_observed: ExecuteUpTo fails iff more than the budget received responses carry an error and returns the FIRST error of that sequence - a member's own or, after a parent cancellation, an aware member's context error; Fast the first success else the first error response; Race the first response), returns once every member was released (C17_call_returns_under_events), never panics (C17_never_panics_under_events), and without a parent cancellation is the old model (C17_event_model_extends_model); generator C17P drives the real functions through all cancellation points for n <= 4 (sub-gated so that simultaneously cancelled members return in index order) and compares with the event model and with a closed-form contract (received sequence = released up to q ++ flushed in index order ++ context-ignoring later ones) which is proved EQUAL to the event model for every API, member count, release order and cancellation point under the generator's guard (C17_event_model_meets_contract_ev: all fields - returned value = the loop's law on that sequence, cancel step = min(q, return step), return step = time of the first response ending the loop else the latest member return, who saw ctx.Done; C17_parent_cancel_judge_sound), plus scripted response sequences with arbitrary messages/errors (same error value from several members, errors.Is-equal distinct errors, nil-message successes) compared with the fold of recv and the closed-form law (proved equal, C17_scripted_sequence_law). (2) In the process model the caller's loop ends too on every schedule for every member count (C17_call_returns), the empty group returns and only the closer can move (C17_empty_group_returns), and a caller that never leaves early has received every member exactly once when its loop ends (C17_never_stopping_caller_receives_all). (3) Gen/GroupExec.v is regenerated from pkg/group/exec.go on every run (go/ast): Execute's switch as a table is proved to be the model's dispatch for every integer and executeEach's shape (channel capacity len(members), all.Add(len(members)), member goroutines that send before Done, one closer) is the one the process model was written from (C17_execute_dispatch_from_source, C17_execute_each_shape_from_source). (4) Trait groups: The two callers of group.Execute (pkg/trait/onoffpb/group.go, pkg/trait/lightpb/group.go) are covered by a second generator (C17T) and Group/TraitGroup*.v: for unary calls the error mapping, the reducers in closed form (onoff: ON if any populated slot is ON, else the first value that is not UNSPECIFIED; light: arithmetic mean over Q when every slot is populated, explicit index-weighted sum otherwise) and, through the contract, which members' values are reduced at which index; for Pull, over every event list: each message sent is the reduction of each member's latest change at its own index and differs from the previous one, the stream is up to date after every processed message, Pull returns exactly when and at the step Execute returns (with Execute's error, or the failed Send's), and with strategy All the first stream end cancels every aware member at that step.",
+        "level_note": "Goroutine termination and the release-order/receive-order link are proved for the process model (textbook channel semantics, arbitrary scheduler) and observed through goroutine dumps; the Go scheduler/runtime is not modelled, and the process model and the decision model are two models (related by C17_received_once and C17_release_order_is_receive_order, not by a full refinement proof). Trusted: Coq kernel + vm_compute, the hand model (tied to the code by the correspondence), the harness (quiescence detection from runtime.Stack states, canonicalisation of messages/errors to integers). Members that never return are outside the property. The closed-form contract for parent cancellation (contract_ev, incl. ExecuteOne's one_spec) is PROVED equal to the event model under the C17P guard for every API and every member count (C17_event_model_meets_contract_ev), so the received sequence of C17_first_error_observed is explicit under that guard (C17_received_sequence_closed_form); without the guard (a member released twice or never, several parent cancellations) only the existential statement holds. The order in which simultaneously cancelled members return is fixed to index order in both model and harness (other orders are schedules the check does not drive; the trace theorems hold for whatever sequence is received). Trait groups: levels are exact rationals in the model; observations of levels are only compared when every float32 intermediate of the reducer is exactly representable (conservative test in the guard), so rounding is not modelled; the lightpb reducer weights by member index, so with an unpopulated slot the result is not the mean of the values present (C17_light_reduce_with_holes_is_not_mean_witness: an observation, not a finding); that the goroutine running Execute inside Pull ends is modelled and observed (goroutine dump), not proved; the Pull judge's closed-form predicate is not proved equivalent to the model (only the unary judge is: C17_trait_unary_judge_sound); Pull with strategy One is not modelled.",
         "trusted_base": [
             "modelled, not verified: Go channel/WaitGroup/context semantics (rendezvous or buffered FIFO channel, close after all senders, cancellation observed by every waiting member at once); the harness's step discipline (one member released per step, quiescence judged from a stop-the-world runtime.Stack dump) makes the order of receipt equal the chosen completion order",
         ],
